@@ -366,6 +366,9 @@ class KeyProcessor:
             # When a key binding does an attempt to change a buffer which is
             # read-only, we can ignore that. We sound a bell and go on.
             app.output.bell()
+            # (The handler may have moved the cursor or left operator-pending
+            # mode before it failed.)
+            self._fix_vi_cursor_position(event)
 
         if was_temporary_navigation_mode:
             self._leave_vi_temp_navigation_mode(event)
